@@ -380,6 +380,14 @@ func TestC18(t *testing.T) {
 			lp.PoolTraceBegin()
 			res = runConnTCP(t, *cur)
 			lp.PoolTraceEnd(fmt.Sprintf("c18 tcp %d-ops", len(cur.ops)))
+		case "tcpsrv":
+			lp.PoolTraceBegin()
+			res = runSrvTCP(t, *cur)
+			lp.PoolTraceEnd(fmt.Sprintf("c18 tcpsrv %d-ops", len(cur.ops)))
+		case "dtlssrv":
+			lp.PoolTraceBegin()
+			res = runSrvDTLS(t, *cur)
+			lp.PoolTraceEnd(fmt.Sprintf("c18 dtlssrv %d-ops", len(cur.ops)))
 		}
 		for _, l := range res {
 			fmt.Fprintln(w, l)
